@@ -388,7 +388,8 @@ def rule_D3(ctx) -> None:
     for p in paths:
         stores = [e for e in p.events if e.kind == "call" and dotted(e.data[1]) in ("super().__setattr__", "object.__setattr__")]
         if stores:
-            ph = [v for k, v in p.valuation.items() if k[0] == "op" and k[1] == "is" and k[3] == PLACEHOLDER]
+            # (tests of the selection table against the placeholder - "__post_init__ has not run" - are not about the field's value)
+            ph = [v for k, v in p.valuation.items() if k[0] == "op" and k[1] == "is" and k[3] == PLACEHOLDER and "'_group_current'" not in show(k[2])]
             if ph != [True]:
                 bad.append(p)
     if bad:
@@ -950,9 +951,9 @@ def rule_O3(ctx) -> None:
     for p in paths:
         val = p.valuation
         boot = any(k[0] == "raises" and v for k, v in val.items())
-        if table_is_dict and any(k[0] == "op" and k[1] in ("is", "is not") and k[-1] == C(None) and "'_group_current'" in show(k[2]) and k[2][0] == "call"
+        if table_is_dict and any(k[0] == "op" and k[1] in ("is", "is not") and k[-1] in (C(None), PLACEHOLDER) and "'_group_current'" in show(k[2]) and k[2][0] == "call"
                                  and bool(v) == (k[1] == "is") for k, v in val.items()):
-            continue        # infeasible: the selection table, once readable, is a dict
+            continue        # infeasible: the selection table, once readable, is a dict (neither None nor the placeholder object)
         for k, v in val.items():
             if k[0] == "op" and k[1] == "in" and k[2] == NAME and k[3][0] in ("c", "set", "tuple"):
                 names = set(k[3][1]) if k[3][0] == "c" else {x[1] for x in k[3][1] if x[0] == "c"}
